@@ -38,6 +38,9 @@ pub enum Step {
         /// An interrupted call is not an error: the program must print what it prints otherwise.
         #[serde(default, skip_serializing_if = "Option::is_none")]
         inject: Option<(String, usize, String)>,
+        /// standard output is a pseudo terminal instead of a pipe (as when a person runs the program)
+        #[serde(default, skip_serializing_if = "std::ops::Not::not")]
+        tty: bool,
     },
     /// The capacity of the file system that holds the data directory (a small tmpfs mounted for
     /// histories that contain this step): from now on it has room for `free_pages` more 4 KiB pages
@@ -324,7 +327,7 @@ pub fn run_history(ctx: &Ctx, h: &History, work: &Path, rotate: usize) -> Trace 
                 }
                 Some(out)
             }
-            Step::Cli { query, exact, describe, env, split, inject } => {
+            Step::Cli { query, exact, describe, env, split, inject, tty } => {
                 let mut args = Vec::new();
                 if *exact {
                     args.push("--exact".to_string());
@@ -340,7 +343,7 @@ pub fn run_history(ctx: &Ctx, h: &History, work: &Path, rotate: usize) -> Trace 
                 } else {
                     args.push(query.clone());
                 }
-                let out = ctx.launcher.any(&xdg, work, &args, env, inject.as_ref(), step_rand(h, i));
+                let out = if *tty && inject.is_none() { ctx.launcher.any_on(&xdg, work, &args, env, step_rand(h, i), true) } else { ctx.launcher.any(&xdg, work, &args, env, inject.as_ref(), step_rand(h, i)) };
                 if let Some(e) = out.harness_error() {
                     trace.harness_errors.push(format!("step {i}: {e}"));
                 }
